@@ -273,6 +273,11 @@ def inline(model: onnx.ModelProto) -> _InlineCall:
     # Now we can assume the graph has no initializers
 
     def inline_inner(*args: Var, **kwargs: Var) -> Dict[str, Var]:
+        if len(args) > len(in_names):
+            raise TypeError(
+                f"inline callback takes at most {len(in_names)} positional arguments "
+                f"but {len(args)} were given, {_signature_msg}."
+            )
         for name, arg in zip(in_names, args):
             if name in kwargs:
                 raise TypeError(
